@@ -469,7 +469,7 @@ impl MultiState {
         }
     }
 
-    fn remove_idx(&mut self, idx: usize) {
+    pub(crate) fn remove_idx(&mut self, idx: usize) {
         if self.free_set.contains(&idx) {
             return;
         }
